@@ -8,7 +8,8 @@ from.
 * Part 1 — semantic obligations: the regex literal, the reader's buffer size, the id length, the
   connection-state constants, the order of the IDENTIFY setters, and — as sets — every error
   code/class the model can answer has a `New(Fatal)ClientErr` call site of that class, and every
-  call site is either answered by the model or listed as I/O-fault / race only.
+  call site is either answered by the base model or listed in `faultOnlyCodes` (answered by
+  `Nsq.Model.ProtoEnv.execX`: consumer limit, failing backend write; see there).
 * Part 2 — the exact, ordered text of the dispatch switch, of every `New(Fatal)ClientErr` call site
   (function, constructor, code) and of every guard / limit comparison the model mirrors. Any
   edit of a guard (an off-by-one, a dropped or reordered check, a changed code) changes the
@@ -48,9 +49,13 @@ theorem fatal_codes_have_sites : ∀ c ∈ modelFatal, hasSite "NewFatalClientEr
 /-- … and every non-fatal one to `NewClientErr`. -/
 theorem nonfatal_codes_have_sites : ∀ c ∈ modelNonFatal, hasSite "NewClientErr" c = true := by decide
 
-/-- Codes with call sites that the model never answers: reachable only through an I/O fault or a
-race (write error, TLS/compression upgrade failure, topic exiting during the publish, channel
-consumer limit) — documented as outside the model. -/
+/-- Codes with call sites that the BASE model `exec` never answers (the name is historical; audit
+round 7, B7): E_SUB_FAILED is the `--max-channel-consumers` limit — an ordinary, deterministic
+read of the broker, not a fault — or a SUB racing a deletion; E_PUB/MPUB/DPUB_FAILED are a failing
+backend write (or a topic exiting during the publish). All four ARE answered by
+`Nsq.Model.ProtoEnv.execX` (consumer limit and write fault as inputs; theorems in
+`Nsq.Props.C09Audit`, guards tied in `Nsq.Tie.ProtoAudit`). Only E_AUTH_ERROR (json.Marshal / send
+failure after a successful AUTH) stays outside every model. -/
 def faultOnlyCodes : List String :=
   ["E_PUB_FAILED", "E_MPUB_FAILED", "E_DPUB_FAILED", "E_SUB_FAILED", "E_AUTH_ERROR"]
 
